@@ -4,7 +4,9 @@ package c08
 import (
 	"context"
 	"fmt"
+	"runtime"
 	"strings"
+	"sync"
 	"sync/atomic"
 	"testing"
 	"time"
@@ -231,3 +233,79 @@ func TestLongLivedLane(t *testing.T) {
 		ev.Case(res.MaxRunning == lanes, ev.Hash("long", p.String()), func() string { return fmt.Sprintf("%s => maxRunning=%d", p, res.MaxRunning) })
 	})
 }
+
+// TestFirstPushesTogether: the first thing that happens to many lanes is that several goroutines push at once (a fan-out
+// right after start-up). Real goroutines on the real clock, many fresh lanes per case: two to eight producers leave a
+// spin barrier together and push gated tasks, more tasks than there are workers; whatever the lane sets up on first
+// use, never more than laneSize of them run. (The bound cannot be missed by waiting too briefly: waiting longer only
+// lets more tasks start.)
+func TestFirstPushesTogether(t *testing.T) {
+	rt.Check(t, 8, 400, func(t *rapid.T) {
+		lanes := rapid.IntRange(1, 3).Draw(t, "laneSize")
+		queue := rapid.IntRange(1, 3).Draw(t, "queueSize")
+		producers := rapid.IntRange(2, 8).Draw(t, "producers")
+		perProducer := rapid.IntRange(1, 2).Draw(t, "tasksPerProducer")
+		trials := 150
+		for trial := 0; trial < trials; trial++ {
+			ctx, cancel := context.WithCancel(context.Background())
+			tl := tasklane.New(ctx, lanes, queue)
+			tl.SetTimeout(20 * time.Millisecond) // a full lane refuses: that is fine here
+			gate := make(chan struct{})
+			var running, maxRunning, accepted, arrived atomic.Int32
+			task := func() *funcTask {
+				return &funcTask{fn: func() {
+					n := running.Add(1)
+					for {
+						m := maxRunning.Load()
+						if n <= m || maxRunning.CompareAndSwap(m, n) {
+							break
+						}
+					}
+					<-gate
+					running.Add(-1)
+				}}
+			}
+			var wg sync.WaitGroup
+			for p := 0; p < producers; p++ {
+				wg.Add(1)
+				go func(p int) {
+					defer wg.Done()
+					arrived.Add(1)
+					for spin := 0; arrived.Load() < int32(producers); spin++ {
+						if spin > 100 {
+							runtime.Gosched()
+						}
+					}
+					for k := 0; k < perProducer; k++ {
+						if tl.PushTask(task(), (p+k)%lanes) == nil {
+							accepted.Add(1)
+						}
+					}
+				}(p)
+			}
+			wg.Wait()
+			// accepted tasks beyond the workers' hands sit in the queues; give idle workers (if the lane has more than it
+			// should) a moment to take them
+			deadline := time.Now().Add(waitPatience)
+			for running.Load() < min(int32(lanes), accepted.Load()) && time.Now().Before(deadline) {
+				time.Sleep(50 * time.Microsecond)
+			}
+			time.Sleep(time.Millisecond)
+			got := maxRunning.Load()
+			close(gate)
+			cancel()
+			tl.Wait()
+			if got > int32(lanes) {
+				t.Fatalf("fresh lane (laneSize %d, queueSize %d), %d producers pushing their first tasks together: %d tasks were running at once (trial %d)", lanes, queue, producers, got, trial)
+			}
+		}
+		ev.Label("first_pushes_together")
+		ev.Case(true, ev.Hash("first", fmt.Sprint(lanes, queue, producers, perProducer)), func() string {
+			return fmt.Sprintf("%d fresh lanes (laneSize %d, queueSize %d): %d producers push %d gated task(s) each at the same moment; never more than laneSize ran", trials, lanes, queue, producers, perProducer)
+		})
+	})
+}
+
+type funcTask struct{ fn func() }
+
+func (f *funcTask) Start() { f.fn() }
